@@ -19,7 +19,7 @@ LEVEL_TEXT = (
 LEVEL_NOTE = "Twin-world cloning of in-memory logical stores; the comparison is differential (dry-run plan vs real run), plus an absolute 'nothing but modified-time queries' invariant."
 TECHNIQUE = "differential property-based testing (dry-run physical plan executed alone vs real run on a cloned world) over generated histories"
 RULE = (
-    "Hypothesis draws a registry world + history (also sources created through another registry, flaky modified-time queries under a retry policy, and a file-backed family whose directory holds leftovers; half of the cases execute the returned plan with an independent sequential interpreter of the documented graph model); the last run of the history is the compared run (optionally with a transform_physical callback: copying or in-place, adding a call, wrapping the output; any output, "
+    "(also: pure sources backed by a logging subclass of the bundled LiteralSource) Hypothesis draws a registry world + history (also sources created through another registry, flaky modified-time queries under a retry policy, and a file-backed family whose directory holds leftovers; half of the cases execute the returned plan with an independent sequential interpreter of the documented graph model); the last run of the history is the compared run (optionally with a transform_physical callback: copying or in-place, adding a call, wrapping the output; any output, "
     "fresh_time, workers, scheduler). Oracle: dry run logs only modified-time queries and returns (Plan, Node|None); "
     "run(physical_plan, output=all its nodes) on world A performs the same multiset of calls/reads/writes and yields "
     "the same output (element at the output node) and the same final store values as the real run on the cloned world B. "
